@@ -24,6 +24,7 @@ def run_one(prop, tier, seed, root=None, quiet=False):
     t0 = time.time()
     try:
         repo = Repo(root)
+        _register_abstract_classes(repo)
         mod = importlib.import_module("sa.checks." + prop)
         res = report.Result(prop, repo)
         mod.check(repo, res, tier)
@@ -45,6 +46,23 @@ def run_one(prop, tier, seed, root=None, quiet=False):
         traceback.print_exc(file=sys.stdout)
         print("ANALYSIS-ERROR property=%s obligation=internal reason=checker raised an exception" % prop)
         return 2
+
+
+def _register_abstract_classes(repo):
+    from .core import absint
+    from .rules import model as M
+    absint.CLASS_METHODS.clear()
+    try:
+        absint.register_class("Model", repo, M.sim_class(repo))
+        absint.register_class("Loss", repo, repo.cls(M.M_LOSS, "BaseLoss"))
+        absint.register_class("ABC", repo, repo.cls(M.M_ABC, "ABC"))
+        lt = repo.module(M.M_LOSSTYPE)
+        absint.register_class("Kernel", repo, *[c for c in lt.classes.values()])
+        tr = repo.module(M.M_TRANS)
+        absint.register_class("Transition", repo, tr.classes["Transition"])
+        absint.register_class("Event", repo, tr.classes["Event"])
+    except (AnalysisError, KeyError):
+        pass
 
 
 def replay(path):
